@@ -221,8 +221,16 @@ class Sim:
             self.settle()
         return c
 
+    def client_closed(self, cid):
+        """the client side of this connection is gone (EOF or connection loss was signalled): it cannot send any more"""
+        r = self.conns[cid].reader
+        return r._eof or r.exception() is not None
+
     def feed_raw(self, cid, data: bytes):
+        if self.client_closed(cid):
+            return False
         self.conns[cid].reader.feed_data(data)
+        return True
 
     def send(self, cid, data, settle=True):
         if isinstance(data, str):
